@@ -397,3 +397,164 @@ func H_C05_order_alias() {
 	verif.Assert(okKeys, "key-sequence-sorted")
 	verif.Reach("end")
 }
+
+// H_C05_pipeline: the clauses together. WHERE filters, then the select list
+// shapes the rows (plain / DISTINCT / GROUP BY [HAVING]), then ORDER BY sorts
+// that unordered result by an output column, then LIMIT/OFFSET cuts the
+// sorted sequence - against a reference evaluator of the whole pipeline.
+func H_C05_pipeline() {
+	n := verif.Choose("rows", maxRows(2, 3)+1)
+	where := verif.Choose("where", 2)
+	shape := verif.Choose("shape", 4)
+	order := verif.Choose("order", 3)
+	window := verif.Choose("window", 2)
+	ordcol := 0
+	if order > 0 {
+		ordcol = verif.Choose("ordcol", 2) // sort by k, or by the second output column (v / the aggregate alias s)
+		if ordcol == 1 && shape == 1 {
+			verif.Assume(false)
+		}
+	}
+	verif.Opt("maporder", 1)
+	doc, rows := numTable(n, "k", "v")
+	c, h := verif.F64("c"), verif.F64("h")
+	lim, off := 0, 0
+	sql := []string{"SELECT k, v FROM t", "SELECT DISTINCT k FROM t", "SELECT k, SUM(v) AS s FROM t", "SELECT k, SUM(v) AS s FROM t"}[shape]
+	var holes []any
+	if where == 1 {
+		sql += " WHERE v > ?"
+		holes = append(holes, c)
+	}
+	if shape >= 2 {
+		sql += " GROUP BY k"
+	}
+	if shape == 3 {
+		sql += " HAVING SUM(v) > ?"
+		holes = append(holes, h)
+	}
+	if order > 0 {
+		col := "k"
+		if ordcol == 1 {
+			col = []string{"v", "", "s", "s"}[shape]
+		}
+		sql += " ORDER BY " + col + []string{"", "", " DESC"}[order]
+	}
+	if window == 1 {
+		lim, off = verif.IntRange("limit", 0, 3), verif.IntRange("offset", 0, 3)
+		sql += " LIMIT ? OFFSET ?"
+		holes = append(holes, lim, off)
+	}
+	for _, r := range rows {
+		verif.Assume(verif.NotNegZero(f64of(r["k"]))) // DISTINCT / GROUP BY key text
+	}
+	got, ok := runQuery(doc, verif.SQL(sql, holes...))
+	if !ok {
+		return
+	}
+	// reference pipeline
+	var kept []Map
+	for _, r := range rows {
+		if where == 0 || f64of(r["v"]) > c {
+			kept = append(kept, r)
+		}
+	}
+	type orow struct {
+		k   float64
+		row Map
+	}
+	var shaped []orow
+	switch shape {
+	case 0:
+		for _, r := range kept {
+			shaped = append(shaped, orow{f64of(r["k"]), Map{"k": r["k"], "v": r["v"]}})
+		}
+	case 1:
+		for _, r := range kept {
+			dup := false
+			for _, s := range shaped {
+				if s.k == f64of(r["k"]) {
+					dup = true
+				}
+			}
+			if !dup {
+				shaped = append(shaped, orow{f64of(r["k"]), Map{"k": r["k"]}})
+			}
+		}
+	default:
+		for _, g := range refGroupBy(kept, "k") {
+			s := refSum(g.members, "v")
+			if shape == 3 && !(f64of(s) > h) {
+				continue
+			}
+			shaped = append(shaped, orow{g.key[0], Map{"k": g.key[0], "s": s}})
+		}
+	}
+	if shape >= 2 {
+		for _, s := range shaped {
+			x := f64of(s.row["s"])
+			verif.Assume(x == x) // inf + -inf
+		}
+	}
+	if ordcol == 1 {
+		// the sort key is the second output column
+		for i := range shaped {
+			shaped[i].k = f64of(shaped[i].row[[]string{"v", "", "s", "s"}[shape]])
+		}
+	}
+	if order > 0 {
+		for i := 1; i < len(shaped); i++ {
+			for j := i; j > 0 && lessNum(shaped[j].k, shaped[j-1].k, order); j-- {
+				shaped[j], shaped[j-1] = shaped[j-1], shaped[j]
+			}
+		}
+	}
+	lo, hi := 0, len(shaped)
+	if window == 1 {
+		lo = off
+		if lo > len(shaped) {
+			lo = len(shaped)
+		}
+		hi = lo + lim
+		if hi > len(shaped) {
+			hi = len(shaped)
+		}
+	}
+	want := shaped[lo:hi]
+	verif.Assert(len(got) == len(want), "count")
+	if len(got) != len(want) {
+		return
+	}
+	ties := false
+	for i := 0; i+1 < len(shaped); i++ {
+		for j := i + 1; j < len(shaped); j++ {
+			if shaped[i].k == shaped[j].k {
+				ties = true
+			}
+		}
+	}
+	if !ties || order == 0 {
+		// the sequence is fully determined
+		exact := true
+		for i := range want {
+			if !verif.Eq(got[i], want[i].row) {
+				exact = false
+			}
+		}
+		verif.Assert(exact, "pipeline-result")
+	} else {
+		// equal sort keys: the key sequence is determined, rows with equal keys may swap
+		seq := true
+		for i := range want {
+			m, isMap := got[i].(Map)
+			col := "k"
+			if ordcol == 1 {
+				col = []string{"v", "", "s", "s"}[shape]
+			}
+			if !isMap || f64of(m[col]) != want[i].k {
+				seq = false
+			}
+		}
+		verif.Assert(seq, "pipeline-key-sequence")
+	}
+	verif.Reach("end")
+}
